@@ -57,3 +57,23 @@ Theorem c06_xml_parse_total :
   forall (gunzip : bytes -> option bytes) (evs : list ev) (ks : bytes),
   (exists c, parse_events gunzip evs ks = Ok c) \/ (exists e, parse_events gunzip evs ks = Err e).
 Proof. exact parse_events_total. Qed.
+
+(* ---------------- END TO END (format/SaveOpen.v): Database::open as a whole - version dispatch, KDBX4
+   container, XML text layer (a parameter), object mapping - never panics and never hangs ---------------- *)
+From KP Require Import SaveOpen.
+Theorem c06_open_never_panics_never_hangs :
+  forall (sha256 sha512 : bytes -> bytes) (hmac256 : bytes -> bytes -> bytes)
+         (kdf : kdfcfg -> bytes -> bytes -> Kdbx4.res bytes)
+         (outer_dec : ocipher -> bytes -> bytes -> bytes -> Kdbx4.res bytes)
+         (decompress : compression -> bytes -> Kdbx4.res bytes)
+         (gunzip : bytes -> option bytes) (lex : bytes -> list ev) (keystream : icipher -> bytes -> bytes)
+         (other_formats : dbversion -> bytes -> Kdbx4.res (list bytes) -> outcome ferr database)
+         (file : bytes) (elements : outcome kerr (list bytes)),
+  good elements ->
+  (forall k s c, good (kdf k s c)) ->
+  (forall c k iv p, good (outer_dec c k iv p)) ->
+  (forall z p, good (decompress z p)) ->
+  (forall v f e, good (other_formats v f e)) ->
+  (forall n, open_model sha256 sha512 hmac256 kdf outer_dec decompress gunzip lex keystream other_formats file elements <> Panic n) /\
+  open_model sha256 sha512 hmac256 kdf outer_dec decompress gunzip lex keystream other_formats file elements <> OutOfFuel.
+Proof. exact open_model_never_panics_never_hangs. Qed.
